@@ -343,8 +343,8 @@ def ili_tsv(ili_file) -> bytes:
 # -- packagers --------------------------------------------------------------------------
 
 ROUTES = ['xml', 'gz', 'xz', 'pkg', 'col', 'tar-file', 'tgz-file', 'txz-file',
-          'tar-pkg', 'tgz-pkg', 'txz-pkg', 'tar-col', 'txz-col', 'mem']
-FILE_ROUTES = [r for r in ROUTES if r != 'mem']
+          'tar-pkg', 'tgz-pkg', 'txz-pkg', 'tar-col', 'txz-col', 'mem', 'dl-url', 'dl-project']
+FILE_ROUTES = [r for r in ROUTES if r != 'mem' and not r.startswith('dl-')]
 
 
 def _write(path, data: bytes):
@@ -450,7 +450,7 @@ def package(route: str, workdir: str, name: str, data: bytes, ext: str = '.xml',
     extra (name, bytes) packages that go into the same collection."""
     os.makedirs(workdir, exist_ok=True)
     fname = name + ext
-    if route == 'xml':
+    if route in ('xml', 'dl-url', 'dl-project'):
         return _write(os.path.join(workdir, fname), data)
     if route == 'gz':
         return _write(os.path.join(workdir, fname + '.gz'), gz_variant(data, len(data) + len(name)))
